@@ -1,48 +1,11 @@
-(* Agreement of the definitions GENERATED from /repo's current Rust text (Generated/Code.v, by tools/rs2v.py) with the
-   hand-written codec models the property theorems are about.  Each lemma is for ALL arguments of the Rust type: the
-   theorems about the models therefore speak about what the code says now; a change of the Rust text changes the generated
-   definition and the lemma below no longer checks.
-     stun-rs/src/common.rs   padding                         = Tlv.pad                       (C01, C02, C14, C16)
-     stun-rs/src/context.rs  ignore_attribute                = Filter.ignore_attribute       (C09, C18)
-     stun-rs/src/message.rs  MessageType::as_u16 / from(u16) = MsgType.as_u16 / of_u16       (C02, C19)
-                             MessageMethod / MessageClass conversions *)
+(* Agreement of the message-type conversions (stun-rs/src/message.rs: MessageType::as_u16 / from(u16), MessageMethod /
+   MessageClass conversions), GENERATED from /repo's current Rust text, with the bit layout MsgType.as_u16 / of_u16 that is
+   proved equal to the RFC figure (C02, C19). padding is in CodeAgreePad.v, ignore_attribute in CodeAgreeFilter.v. *)
 From Coq Require Import List NArith ZArith Lia Bool ZifyBool ZifyN.
 Ltac Zify.zify_post_hook ::= Z.div_mod_to_equations.
 Import ListNotations.
 From Rustun Require Import Base.GRes Base.Tlv Generated.Constants Generated.Code Codec.Filter Codec.InputText Codec.Wire Codec.MsgType.
 Open Scope N_scope.
-
-(* ---- padding (usize): (4 - (n & 3)) & 3, never underflows *)
-Lemma land3 n : N.land n 3 = n mod 4.
-Proof. change 3 with (N.ones 2). rewrite N.land_ones. reflexivity. Qed.
-Lemma gen_padding_agrees : forall n, gen_padding n = GOk (pad n).
-Proof.
-  intros n. unfold gen_padding, pad. rewrite !land3.
-  assert (H : n mod 4 < 4) by (apply N.mod_lt; lia).
-  assert ((n mod 4 <=? 4) = true) as -> by (apply N.leb_le; lia). cbn [negb]. reflexivity.
-Qed.
-
-(* ---- the admission filter of the decoder *)
-Definition conv_filter (f:flt) : AttributeFilter :=
-  {| AttributeFilter_message_integrity := f_mi f; AttributeFilter_message_integrity_sha256 := f_sha f; AttributeFilter_fingerprint := f_fp f |}.
-Lemma gen_ignore_attribute_agrees : forall f ty,
-  gen_ignore_attribute (conv_filter f) ty
-  = GOk (fst (ignore_attribute f (kind_of_type ty)), conv_filter (snd (ignore_attribute f (kind_of_type ty)))).
-Proof.
-  intros [a b c] ty. unfold gen_ignore_attribute, ignore_attribute, kind_of_type, conv_filter.
-  cbn [AttributeFilter_message_integrity AttributeFilter_message_integrity_sha256 AttributeFilter_fingerprint f_mi f_sha f_fp].
-  change gen_T_MESSAGE_INTEGRITY with T_MI. change gen_T_MESSAGE_INTEGRITY_SHA256 with T_SHA. change gen_T_FINGERPRINT with T_FP.
-  destruct (N.eqb_spec ty T_MI) as [E1|E1].
-  - subst ty. destruct a, b, c; reflexivity.
-  - destruct (N.eqb_spec ty T_SHA) as [E2|E2].
-    + subst ty. destruct a, b, c; reflexivity.
-    + destruct (N.eqb_spec ty T_FP) as [E3|E3].
-      * subst ty. destruct a, b, c; reflexivity.
-      * destruct a, b, c; reflexivity.
-Qed.
-(* every record of the generated type is the image of a model filter state *)
-Lemma conv_filter_onto : forall g, exists f, g = conv_filter f.
-Proof. intros [a b c]. exists {| f_mi := a; f_sha := b; f_fp := c |}. reflexivity. Qed.
 
 (* ---- message type: finite domains, exhaustively *)
 Definition mt (m c:N) : MessageType := {| MessageType_method := m; MessageType_class := c |}.
@@ -91,24 +54,3 @@ Qed.
 Lemma gen_method_as_u16_agrees : forall m, gen_MessageMethod_as_u16 m = m.
 Proof. reflexivity. Qed.
 
-(* ---- composition: the code of ignore_attribute, run over the type codes of a message from the decoder's initial filter,
-   admits exactly what the RFC 8489 ordering rule of the property text (Filter.allow) admits *)
-Fixpoint gen_run (f:AttributeFilter) (tys:list N) : list bool :=
-  match tys with
-  | [] => []
-  | t :: r => match gen_ignore_attribute f t with GOk (i, f') => negb i :: gen_run f' r | _ => [] end
-  end.
-Lemma gen_run_agrees : forall tys f, gen_run (conv_filter f) tys = run ignore_attribute f (map kind_of_type tys).
-Proof.
-  induction tys as [|t r IH]; intros f; cbn [gen_run run map]; [reflexivity|].
-  rewrite gen_ignore_attribute_agrees. destruct (ignore_attribute f (kind_of_type t)) as [i f']. cbn [fst snd].
-  rewrite IH. reflexivity.
-Qed.
-Theorem code_filter_is_rfc_rule : forall tys,
-  gen_run {| AttributeFilter_message_integrity := false; AttributeFilter_message_integrity_sha256 := false; AttributeFilter_fingerprint := false |} tys
-  = allow {| s_mi := false; s_sha := false; s_fp := false |} (map kind_of_type tys).
-Proof.
-  intros tys. change {| AttributeFilter_message_integrity := false; AttributeFilter_message_integrity_sha256 := false; AttributeFilter_fingerprint := false |}
-    with (conv_filter {| f_mi := false; f_sha := false; f_fp := false |}).
-  rewrite gen_run_agrees. apply C09_from_start.
-Qed.
